@@ -190,27 +190,28 @@ fn vp_native_chunked_truncation_corruption_faults() {
     println!("VP-NATIVE chunked_truncation_corruption_faults cases={}", cases);
 }
 
-/// C05: every byte string over a framing alphabet up to length 6 (and numeric blow-ups): no panic, bounded work, bounded buffer
+/// C05: every byte string over a framing alphabet up to length 6, and size-line edge cases (huge numbers, long and endless lines):
+/// no panic, and reading ends (Ok(0) or an error) within a bounded number of calls
 #[test]
 fn vp_native_chunked_hostile_inputs_terminate() {
-    let alphabet = b"0f;\r\nx ";
     let mut cases = 0u64;
+    for wire in hostile_wires(6) { let mut r = reader(&wire, 2); let _ = drain(&mut r, &[3], 100); cases += 1; }
+    for wire in special_wires() { for seg in [1usize, 64, 100_000] { let mut r = reader(&wire, seg); let _ = drain(&mut r, &[16, 3, 70_000], 400); cases += 1; } }
+    println!("VP-NATIVE chunked_hostile_inputs_terminate cases={}", cases);
+}
+fn hostile_wires(maxlen: usize) -> Vec<Vec<u8>> {
+    let alphabet = b"0f;\r\nx ";
+    let mut all = Vec::new();
     let mut frontier: Vec<Vec<u8>> = vec![vec![]];
-    for _ in 0..6 {
+    for _ in 0..maxlen {
         let mut next = Vec::new();
         for w in &frontier { for &c in alphabet.iter() { let mut v = w.clone(); v.push(c); next.push(v); } }
-        for wire in &next {
-            let mut r = reader(wire, 2);
-            let (got, end) = drain(&mut r, &[3], 100);
-            let (want, clean) = fut(wire);
-            assert!(want.starts_with(&got), "delivered bytes are not a prefix of what {:?} frames", wire);
-            assert!(end.is_ok() == clean && (!clean || got == want), "{:?}: ended {:?}, the spec says clean = {}", wire, end, clean);
-            cases += 1;
-        }
+        all.extend(next.iter().cloned());
         frontier = next;
     }
-    // every enumerated wire also agrees with the spec `fut`: delivered bytes are a prefix of what the wire frames, Ok only when it ends cleanly
-    // (checked on the size-line edge cases below, where hostile numbers and endless lines live)
+    all
+}
+fn special_wires() -> Vec<Vec<u8>> {
     let long_ext = |n: usize| -> Vec<u8> { let mut w = b"5;".to_vec(); w.extend(std::iter::repeat(b'a').take(n)); w };
     let mut specials: Vec<Vec<u8>> = vec![
         b"ffffffffffffffff\r\nabc".to_vec(), b"10000000000000000\r\nabc".to_vec(), b"7fffffff\r\nabc".to_vec(), b"8000000000000000\r\n".to_vec(), b"FFFFFFFFFFFFFFF0\r\nx".to_vec(),
@@ -221,14 +222,30 @@ fn vp_native_chunked_hostile_inputs_terminate() {
         b"00000000000000004\r\nwiki\r\n0\r\n\r\n".to_vec(), b"0000000000000000000000004\r\nwiki\r\n00000000000000000000\r\n\r\n".to_vec(),
         // signs, blanks, prefixes
         b"+4\r\nwiki\r\n0\r\n\r\n".to_vec(), b"-4\r\nwiki\r\n0\r\n\r\n".to_vec(), b"0x4\r\nwiki\r\n0\r\n\r\n".to_vec(), b" 4 \r\nwiki\r\n0\r\n\r\n".to_vec(), b"4 ;x\r\nwiki\r\n0\r\n\r\n".to_vec(),
-        // chunk extensions: within the 128-byte line limit, at it, beyond it, and endless
+        // chunk extensions: within the line limit, at it, beyond it, and endless
         { let mut w = long_ext(line_max() - 28); w.extend_from_slice(b"\r\nhello\r\n0\r\n\r\n"); w }, { let mut w = long_ext(line_max() - 4); w.extend_from_slice(b"\r\nhello\r\n0\r\n\r\n"); w },
         { let mut w = long_ext(line_max() - 3); w.extend_from_slice(b"\r\nhello\r\n0\r\n\r\n"); w }, { let mut w = long_ext(line_max() - 2); w.extend_from_slice(b"\r\nhello\r\n0\r\n\r\n"); w },
         { let mut w = long_ext(line_max() + 72); w.extend_from_slice(b"\r\nhello\r\n0\r\n\r\n"); w }, long_ext(line_max() + 72), long_ext(70_000), long_ext(3_000_000),
     ];
     specials.push({ let mut w = vec![b'0'; line_max() - 2]; w.extend_from_slice(b"\r\n\r\n"); w });
     specials.push({ let mut w = vec![b'0'; line_max() - 1]; w.extend_from_slice(b"\r\n\r\n"); w });
-    for wire in &specials { for seg in [1usize, 64, 100_000] {
+    specials
+}
+
+/// C02 on the same hostile wires: what is delivered is a prefix of what the wire frames (spec `fut`), a clean end only when the
+/// framing is complete; a chunk-size line longer than the client's own limit may be refused or accepted
+#[test]
+fn vp_native_chunked_hostile_inputs_match_spec() {
+    let mut cases = 0u64;
+    for wire in hostile_wires(6) {
+        let mut r = reader(&wire, 2);
+        let (got, end) = drain(&mut r, &[3], 100);
+        let (want, clean) = fut(&wire);
+        assert!(want.starts_with(&got), "delivered bytes are not a prefix of what {:?} frames", wire);
+        assert!(end.is_ok() == clean && (!clean || got == want), "{:?}: ended {:?}, the spec says clean = {}", wire, end, clean);
+        cases += 1;
+    }
+    for wire in &special_wires() { for seg in [1usize, 64, 100_000] {
         let (want, clean) = fut(wire);
         let (want_u, clean_u) = fut_lim(wire, usize::MAX);   // a chunk-size line longer than the client's own limit is not malformed HTTP
         let mut r = reader(wire, seg);
@@ -239,7 +256,7 @@ fn vp_native_chunked_hostile_inputs_terminate() {
         else { assert!(end.is_err(), "malformed or truncated body ended with Ok: {:?}... ({} bytes delivered)", &wire[..wire.len().min(40)], got.len()); }
         cases += 1;
     } }
-    println!("VP-NATIVE chunked_hostile_inputs_terminate cases={}", cases);
+    println!("VP-NATIVE chunked_hostile_inputs_match_spec cases={}", cases);
 }
 
 /// C05: a chunk-size line without end is given up after a bounded amount of input (the line limit plus what the buffers read
